@@ -56,6 +56,11 @@ def run_one(mut, tier, with_tests):
         shutil.copy(os.path.join(VERIF, "known_findings.json"), vdir) if os.path.exists(os.path.join(VERIF, "known_findings.json")) else None
         t0 = time.time()
         props = mut["property"] if isinstance(mut["property"], list) else [mut["property"]]
+        own = list(props)
+        if ALL_CHECKS:
+            props = ["C%02d" % i for i in range(1, 21)]
+            if "C18" not in own:
+                env["VERIF_SKIP_RACE"] = "1"
         detected = {}
         for pid in props:
             c = subprocess.run([binp, "check", pid, tier], env=dict(env, VERIF_DIR=vdir), capture_output=True, text=True)
@@ -66,7 +71,10 @@ def run_one(mut, tier, with_tests):
                 detected[pid]["stderr"] = c.stderr[-1500:]
         res["checks"] = detected
         res["check_s"] = round(time.time() - t0, 1)
-        res["status"] = "DETECTED" if all(d["exit"] == 1 and d["violations"] > 0 for d in detected.values()) else "MISSED"
+        res["status"] = "DETECTED" if all(detected[p]["exit"] == 1 and detected[p]["violations"] > 0 for p in own) else "MISSED"
+        if ALL_CHECKS:
+            res["also_fired"] = sorted(p for p in detected if p not in own and detected[p]["exit"] == 1)
+            res["harness_exit2"] = sorted(p for p in detected if detected[p]["exit"] == 2)
         if with_tests:
             t = subprocess.run(["go", "test", "-vet=off", "-count=1", "-overlay", ov, "./..."], cwd=REPO, env=dict(ENV, GOFLAGS=""), capture_output=True, text=True)
             res["repo_tests_pass"] = (t.returncode == 0)
@@ -77,8 +85,15 @@ def run_one(mut, tier, with_tests):
         shutil.rmtree(tmp, ignore_errors=True)
 
 
+ALL_CHECKS = False
+
+
 def main():
+    global ALL_CHECKS
     args = sys.argv[1:]
+    if "--all-checks" in args:
+        ALL_CHECKS = True
+        args.remove("--all-checks")
     with_tests = "--tests" in args
     tier = "quick"
     jobs = 3
@@ -103,11 +118,11 @@ def main():
     results = []
     with concurrent.futures.ThreadPoolExecutor(max_workers=jobs) as ex:
         for r in ex.map(lambda m: run_one(m, tier, with_tests), muts):
-            print(f"{r['status']:12s} {r['name']:45s} {r['property']} tests_pass={r.get('repo_tests_pass','-')} {r.get('check_s','')}s", flush=True)
+            print(f"{r['status']:12s} {r['name']:45s} {r['property']} tests_pass={r.get('repo_tests_pass','-')} {r.get('check_s','')}s also={r.get('also_fired','')} exit2={r.get('harness_exit2','')}", flush=True)
             if r["status"] not in ("DETECTED",):
                 print("   ", json.dumps(r)[:1500])
             results.append(r)
-    out = os.path.join(VERIF, "mutants", "RESULTS.json")
+    out = os.path.join(VERIF, "mutants", "MATRIX.json" if ALL_CHECKS else "RESULTS.json")
     old = {}
     if os.path.exists(out):
         try:
